@@ -7,7 +7,7 @@ from typing import Optional
 
 from .. import terms as tm
 from ..interp import Interp
-from ..lib import fmt, is_call_to, per_element
+from ..lib import fmt, indirect_calls, is_call_to, per_element
 from ..terms import T, const
 from . import metrics_model as mm
 
@@ -274,13 +274,25 @@ def check(ctx):
     rh = Interp(prog).run(h)
     st = [e for e in rh.of_kind("call")
           if (e.data.get("name") or "").endswith("Result.add_stats")]
+    def _given(live, val):
+        # the path condition, given that the stored value is there (the
+        # statistics dict / the error array are never None)
+        def asg(a):
+            if a.op in ("and", "or", "not"):
+                return None
+            if a.op == "cmp" and a.args[0] in ("Is", "IsNot") and \
+                    a.args[1] is val and tm.is_const(a.args[2], None):
+                return a.args[0] == "IsNot"
+            return None
+        return tm.fold(live, asg)
     ok = len(st) == 1 and st[0].data["args"] and is_call_to(
         st[0].data["args"][0], f"{PE}.get_all_statistics") and \
-        tm.is_const(st[0].live, True)
+        _given(st[0].live, st[0].data["args"][0]) is True
     ctx.ob("C12.1", h, ok,
            "get_result stores exactly get_all_statistics()" if ok else
            "get_result does not store get_all_statistics() unconditionally",
-           key="C12.1:result-stats")
+           key="C12.1:result-stats",
+           evidence=bool(st) or not indirect_calls(rh))
     ea = [e for e in rh.of_kind("call")
           if (e.data.get("name") or "").endswith("Result.add_np_array")
           and e.data["args"] and tm.is_const(e.data["args"][0],
@@ -290,7 +302,13 @@ def check(ctx):
            "get_result stores self.error itself as error_array" if ok else
            f"error_array is "
            f"{fmt(ea[0].data['args'][1]) if ea else 'not stored'}",
-           key="C12.1:result-error-array")
+           key="C12.1:result-error-array",
+           # arrays stored under names that are not read here (a loop over
+           # a table of arrays) may include it
+           evidence=bool(ea) or not (indirect_calls(rh) or any(
+               (e.data.get("name") or "").endswith("Result.add_np_array")
+               and e.data["args"] and not tm.is_const(e.data["args"][0])
+               for e in rh.of_kind("call"))))
     info = [e for e in rh.of_kind("call")
             if (e.data.get("name") or "").endswith("Result.add_info")]
     ok = False
